@@ -789,7 +789,7 @@ func c16BigMessage(c *core.Case, w *svcWorld) *core.Result {
 			if ex.Out.Hang {
 				return c.Violation("no-answer:big-message", "a valid message with %d packs is never answered\n%s", n, clipDump(ex.Out.Dump))
 			}
-			if w.b.Idle(3 * time.Second) {
+			if w.b.Idle(3*time.Second) && !(ex.Out.Returned != nil && ex.Out.Returned()) {
 				// nothing runs for it any more - no database command open, no announced background
 				// work - and the call has still not returned
 				return c.Violation("no-answer:big-message", "a valid message with %d packs was not answered within the request watchdog and the server side does nothing any more", n)
@@ -819,7 +819,9 @@ func c16BigMessage(c *core.Case, w *svcWorld) *core.Result {
 	// the same valid request many times over: registrations of one client, creation of a
 	// collection that exists
 	for i := 0; i < 40; i++ {
-		if err := cl.Register(); err != nil {
+		if err := cl.Register(); err != nil && strings.Contains(err.Error(), "timed out") {
+			return c.Inconclusive("registration watchdog")
+		} else if err != nil {
 			return c.Violation("refused:repeated-registration", "registration %d of the same client was refused: %v", i+2, err)
 		}
 	}
